@@ -131,13 +131,13 @@ def _c15(E, tier, seed, res):
         res["inconclusive"].append("c15 crate does not build: " + err[-500:])
         return
     binary = os.path.join(cdir, "target", "release", "evx-c15")
-    nproc, rounds, threads = (6, 150, 16) if tier == "quick" else (16, 2500, 32)
+    nproc, rounds, threads = (6, 150, 16) if tier == "quick" else (16, 1000, 32)
     procs = [subprocess.Popen([binary, str(rounds), str(threads), "24", str(seed * 1000 + i)], stdout=subprocess.PIPE,
                               stderr=subprocess.PIPE, text=True, errors="replace") for i in range(nproc)]
     inter, evals, events = 0, 0, 0
     for i, p in enumerate(procs):
         try:
-            out, err = p.communicate(timeout=1800)
+            out, err = p.communicate(timeout=7200)
         except subprocess.TimeoutExpired:
             p.kill()
             res["inconclusive"].append("native concurrency stress: watchdog fired")
